@@ -227,6 +227,13 @@ def rejections():
     return R
 
 
+# a valid spelling and a malformed one that differs from it only in characters which the *name* lookup treats alike (space,
+# hyphen, underscore, letter case): the malformed one must be rejected also when the valid one has just been used
+AFTER = [(' 31', '-31'), ('1; 31', '1;-31'), (' 31', '_31'), ('rgb(1, 2,3)', 'rgb(1,-2,3)'), ('rgb(1, 2,3)', 'rgb(1,_2,3)'),
+         ('color256( 100)', 'color256(-100)'), ('bg_rgb( 1,2,3)', 'bg_rgb(-1,2,3)'), ('bg_color256( 7)', 'bg_color256(-7)'),
+         ('fg red', 'fg red-'), ('31', '31-'), ('rgb(0x10, 2, 3)', 'rgb(0x1g, 2, 3)')]
+
+
 def check_reject(label, form, exc, how):
     try:
         v = construct(form, how)
@@ -365,6 +372,16 @@ def do_case(case):
             n += 2
             bad.extend(check_class(canon, [form], 'mixture %s as %s' % ([repr(p[1])[:30] for p in parts], mode), hows=('ctor', 'apply')))
         return bad, n
+    if k == 'reject_after':
+        bad = []
+        valid, invalid = AFTER[case['i']]
+        for how in ('ctor', 'apply', 'str'):
+            try:
+                construct(valid, how)
+            except Exception as e:  # noqa
+                bad.append(('spelling-raises', '%r via %s raised %s: %s' % (valid, how, type(e).__name__, e)))
+            bad.extend(check_reject('malformed sibling of %r, used just before' % valid, invalid, ValueError, how))
+        return bad, 6
     if k == 'reject':
         bad = []
         for how in ('ctor', 'apply', 'str'):
@@ -409,6 +426,7 @@ def run_task(task, acc):
                 cases.append({'kind': 'mix', 'idx': [first, j, l]})
     elif k == 'reject':
         cases = [{'kind': 'reject', 'i': i, 'label': r[0]} for i, r in enumerate(rejections())]
+        cases += [{'kind': 'reject_after', 'i': i, 'label': repr(a)} for i, a in enumerate(AFTER)]
     for case in cases:
         acc.current = case
         bad, n = do_case(case)
